@@ -1,7 +1,7 @@
 (* C17 - Packages cannot observe or mutate each other's values.
    This file holds only the statement, the property theorems and their non-vacuity examples. *)
 From PlzV Require Import Base.Harness Model.C16_Syntax Model.C16_Ops Model.C16_Prim Model.C16_Eval Model.C16.
-From PlzV Require Import Proof.C17 Proof.C17_Inv Proof.C17_Main Proof.C17_NoConst Proof.C17_Examples.
+From PlzV Require Import Proof.C17 Proof.C17_Inv Proof.C17_Main Proof.C17_NoConst Proof.C17_Scopes Proof.C17_Iso Proof.C17_Examples.
 
 (* For every subincluded file and every two packages interpreted on one interpreter (so that they share the
    cached, frozen globals of the subinclude): what the second package computes is what it computes when it is
@@ -35,6 +35,12 @@ Print Assumptions C17_refuted.
        NOT (it is shallow) - the refuting class.  `frozen_stateb` is an executable, sound test of (2)'s hypothesis.
    (5) The primitive facts: index assignment through a frozen list / dict always fails; a frozen list is read-only for
        every operation (+ allocates); writes to different arrays commute.
+
+   (6) Sequential isolation: in an interpreter at rest in which nothing reachable is a mutable reference, every BUILD
+       file leaves everything that existed before it unchanged (heap, earlier file scopes, functions, cache) and the
+       interpreter is at rest again: what a package computed cannot be changed by a package interpreted later.
+   (7) The control part of the state (current scope, open local scopes, cache, the other file scopes) is preserved by
+       the whole evaluator, without any hypothesis on the heap.
 
    NOT proved: that a package's OWN results do not depend on the objects an earlier package allocated (the evaluator
    is parametric in fresh array / dict / function ids) - the harness compares `b alone` with `b after a` instead. *)
@@ -73,6 +79,21 @@ Definition C17_partial_statement : Prop :=
         run_builds Asp defs fuel builds st0 = (outs, st') ->
         closedb rfuel st0 (length (arrays st0)) (length (dicts st0)) (length (funcs st0)) v = true ->
         render Asp rfuel st' v = render Asp rfuel st0 v)
+  (* (6) sequential isolation: from an interpreter at rest (RestInv: nothing reachable is a mutable reference), after
+     the BUILD files b1 everything that exists - b1's file scopes, i.e. what they computed, the whole heap, the
+     functions, the cache - is unchanged by any further BUILD files b2; closed values render the same *)
+  /\ (forall defs fuel b1 b2 D st0 outs st',
+        RestInv defs D st0 -> Forall (fun p => no_const p = true) (b1 ++ b2) ->
+        run_builds Asp defs fuel (b1 ++ b2) st0 = (outs, st') ->
+        exists o1 st1 o2, run_builds Asp defs fuel b1 st0 = (o1, st1) /\ run_builds Asp defs fuel b2 st1 = (o2, st') /\ outs = o1 ++ o2
+          /\ unchanged st0 st1 /\ unchanged st1 st')
+  /\ (forall st st' rfuel v, unchanged st st' ->
+        closedb rfuel st (length (arrays st)) (length (dicts st)) (length (funcs st)) v = true ->
+        render Asp rfuel st' v = render Asp rfuel st v)
+  /\ (forall defs D st, rest_invb defs D st = true -> RestInv defs D st)
+  (* (7) the control part: the evaluator preserves the current scope, the number of open local scopes and the cache,
+     and writes no file scope but the current one, and that only at the top level of a file *)
+  /\ (forall defs fuel p st e oof st', cachedall defs st -> exec_top Asp defs fuel p st = (e, oof, st') -> sc st st')
   (* (4) *)
   /\ (forall st na nd v, deep_frozen st v -> vok (cls_prefix na []) (cls_prefix nd []) (fun _ => false) v)
   /\ (forall fuel sl st, Forall scalar (list_items Asp st sl) ->
@@ -95,9 +116,10 @@ Definition C17_partial_statement : Prop :=
 Theorem C17_partial : C17_partial_statement.
 Proof.
   exact (conj frame_builds (conj packages_write_nothing_imported (conj build_files_write_nothing_imported (conj imported_values_unchanged
+        (conj later_packages_change_nothing (conj unchanged_render (conj rest_invb_sound (conj top_sc
         (conj deep_frozen_vok (conj freeze_flat_list_deep_frozen (conj freeze_nested_not_deep_frozen
         (conj frozen_stateb_sound (conj frozen_index_assign_fails (conj frozen_list_is_readonly
-        (conj arr_write_other arr_write_commute))))))))))).
+        (conj arr_write_other arr_write_commute))))))))))))))).
 Qed.
 Print Assumptions C17_partial.
 
@@ -126,6 +148,7 @@ Example C17_partial_nonvacuous :
   /\ forallb no_const [xa; xb] = true
   /\ length (exports_of (state_after d_lib)) = 3
   /\ no_interference FUEL [(lbl, d_lib)] xa xb = true
+  /\ rest_invb [(lbl, d_lib)] (Dead4 [] [0] [] []) (state_after d_lib) = true
   /\ frozen_stateb [(lbl, d_nested)] [] [] (state_after d_nested) = false
   /\ frozen_stateb [(lbl, d_mk)] [] [] (state_after d_mk) = false
   /\ frozen_stateb [(lbl, d_dflt)] [] [] (state_after d_dflt) = false.
